@@ -3,13 +3,15 @@
 #include "../floatval.h"
 #include "../scaledval.h"
 
+#include <bit>
 #include <sstream>
 
 namespace c10 {
 using namespace vf;
 
 // WithNot: operator~ of multi-word wide_integer is ill-formed on the pinned tree (uintwide_t::operator~ is a non-const member)
-template<int D, class Narrowest, bool WithNot>
+// WithInt: wide op built-in integer is only well-formed on the pinned tree when the limb type matches the promoted built-in
+template<int D, class Narrowest, bool WithNot, bool WithInt = false>
 struct Wide {
     using T = cnl::wide_integer<D, Narrowest>;
     using Rep = cnl::_impl::rep_of_t<T>;
@@ -36,11 +38,21 @@ struct Wide {
            FROM_FLOAT,
            TEXT,
            LIMITS,
+           ADD_INT,
+           MUL_INT,
+           DIV_INT,
+           MOD_INT,
+           A_ADD,
+           A_SUB,
+           A_MUL,
+           A_DIV,
+           A_MOD,
+           WIDEN,
            N_OPS };
     static char const* opname(int op)
     {
         static char const* n[] = {"+", "-", "*", "/", "%", "neg", "~", "&", "|", "^", "<<", ">>", "cmp", "++", "--", "from-int", "to-int",
-                                  "to-float", "from-float", "text", "numeric_limits"};
+                                  "to-float", "from-float", "text", "numeric_limits", "+int", "*int", "/int", "%int", "+=", "-=", "*=", "/=", "%=", "widen"};
         return n[op];
     }
     // reduce to the W-bit two's-complement range
@@ -57,11 +69,11 @@ struct Wide {
     {
         if (d) *d = std::string(opname(op)) + " a=" + zstr(za) + " b=" + zstr(zb) + " n=" + std::to_string(n);
         o.fp = fpn(za, zb, op, n);
-        if ((op == DIV || op == MOD) && zb == 0) return o.discard("zero-divisor");
+        if ((op == DIV || op == MOD || op == A_DIV || op == A_MOD) && zb == 0) return o.discard("zero-divisor");
         if constexpr (!is_uintwide_v<Rep> && is_signed) {
             // single-word storage (a built-in integer): a result that leaves the storage is built-in signed overflow (UB), outside the property
             mpz_class r = op == ADD ? mpz_class(za + zb) : op == SUB ? mpz_class(za - zb) : op == MUL ? mpz_class(za * zb) : op == SHL ? mpz_class(za << n)
-                        : op == NEG ? mpz_class(-za) : op == INC ? mpz_class(za + 1) : op == DEC ? mpz_class(za - 1) : mpz_class(0);
+                        : op == NEG ? mpz_class(-za) : op == INC ? mpz_class(za + 1) : op == DEC ? mpz_class(za - 1) : op == A_ADD ? mpz_class(za + zb) : op == A_SUB ? mpz_class(za - zb) : op == A_MUL ? mpz_class(za * zb) : mpz_class(0);
             if (r != reduce(r) || (op == SHL && za < 0)) return o.discard("single-word-storage-overflow");
         }
         T a = make_rep<T>(za), b = make_rep<T>(zb);
@@ -227,6 +239,65 @@ struct Wide {
                     got = za;
                 break;
             }
+            case ADD_INT:
+            case MUL_INT:
+            case DIV_INT:
+            case MOD_INT: {
+                if constexpr (!WithInt) {
+                    expect = 0, got = 0;
+                    fail_detail = "skip";
+                    break;
+                } else {
+                // wide op built-in integer: the result is reduced to the storage width of the result's own type
+                using K = std::conditional_t<is_signed, int, unsigned>;  // same signedness: a signed operand would add a sign bit to an unsigned type
+                K k = wrap_to<K>(zb);
+                if ((op == DIV_INT || op == MOD_INT) && k == 0) k = 3;
+                mpz_class zk = to_mpz(k), ex;
+                auto finish = [&](auto const& r) {
+                    using R = std::remove_cvref_t<decltype(r)>;
+                    constexpr int RW = rep_width<cnl::_impl::rep_of_t<R>>();
+                    constexpr bool rs = cnl::numbers::signedness_v<R>;
+                    mpz_class m = mpz_class(1) << RW, v = ex % m;
+                    if (v < 0) v += m;
+                    if (rs && v >= (m >> 1)) v -= m;
+                    expect = v;
+                    got = rep_mpz(r);
+                };
+                if (op == ADD_INT) ex = za + zk, finish(a + k);
+                if (op == MUL_INT) ex = za * zk, finish(a * k);
+                if (op == DIV_INT) mpz_tdiv_q(ex.get_mpz_t(), za.get_mpz_t(), zk.get_mpz_t()), finish(a / k);
+                if (op == MOD_INT) mpz_tdiv_r(ex.get_mpz_t(), za.get_mpz_t(), zk.get_mpz_t()), finish(a % k);
+                }
+                break;
+            }
+            case A_ADD:
+            case A_SUB:
+            case A_MUL:
+            case A_DIV:
+            case A_MOD: {
+                if ((op == A_DIV || op == A_MOD) && zb == 0) {
+                    fail_detail = "skip";
+                    break;
+                }
+                T x = a;
+                mpz_class ex;
+                if (op == A_ADD) x += b, ex = za + zb;
+                if (op == A_SUB) x -= b, ex = za - zb;
+                if (op == A_MUL) x *= b, ex = za * zb;
+                if (op == A_DIV) x /= b, mpz_tdiv_q(ex.get_mpz_t(), za.get_mpz_t(), zb.get_mpz_t());
+                if (op == A_MOD) x %= b, mpz_tdiv_r(ex.get_mpz_t(), za.get_mpz_t(), zb.get_mpz_t());
+                expect = reduce(ex), got = rep_mpz(x);
+                break;
+            }
+            case WIDEN: {
+                // conversion to a wider wide_integer of the same signedness preserves the value
+                // (uintwide_t accepts widths of 2^n times an odd number <= 63: take a power of two)
+                constexpr unsigned bits2 = std::bit_ceil(static_cast<unsigned>(2 * (D + 2)));
+                using W2 = cnl::wide_integer<int(bits2) - (is_signed ? 1 : 0), Narrowest>;
+                W2 w2{a};
+                expect = za, got = rep_mpz(w2);
+                break;
+            }
             default: {
                 expect = 0, got = 0;
                 if (std::numeric_limits<T>::digits != D) got = 1;
@@ -250,7 +321,7 @@ struct Wide {
         if constexpr (is_uintwide_v<Rep>) {
             // cause region: the vendored Karatsuba multiplication (>= 129 limbs) assumes a power-of-two limb count
             constexpr std::size_t limbs = Rep::number_of_limbs;
-            if (op == MUL && limbs >= 129 && (limbs & (limbs - 1)) != 0) cause = "karatsuba-non-power-of-two-limb-count/";
+            if ((op == MUL || op == A_MUL) && limbs >= 129 && (limbs & (limbs - 1)) != 0) cause = "karatsuba-non-power-of-two-limb-count/";
         }
         if (got != expect || (!fail_detail.empty() && fail_detail != "skip"))
             return o.fail(std::string("op") + opname(op) + "/" + cause + "value-mismatch", "expected " + zstr(expect) + " got " + zstr(got) + " " + fail_detail);
@@ -267,7 +338,7 @@ struct Wide {
         mpz_class za = draw_mpz(w, D, is_signed), zb = draw_mpz(w, D, is_signed);
         unsigned n = unsigned(w.next());
         if (op == SHL || op == SHR) n = n % unsigned(W);
-        if (op == DIV || op == MOD) {
+        if (op == DIV || op == MOD || op == A_DIV || op == A_MOD) {
             unsigned m = unsigned(w.next() % 6);
             if (m == 0) {  // short divisor
                 zb = draw_mpz(w, 1 + int(w.next() % 64), is_signed);
@@ -288,6 +359,7 @@ struct Wide {
             }
             if (zb == 0) zb = 1;
         }
+        if (op >= ADD_INT && op <= MOD_INT) zb = to_mpz(draw_int<std::int64_t>(w));
         if (op == FROM_INT) zb = (w.next() & 1) ? to_mpz(draw_int<std::int64_t>(w)) : to_mpz(draw_int<u128>(w));
         if (op == FROM_FLOAT) zb = to_mpz(w.next());
         if (op == TO_INT && (w.next() % 2)) za = (w.next() & 1) ? to_mpz(draw_int<std::int64_t>(w)) : to_mpz(draw_int<i128>(w));
